@@ -315,13 +315,15 @@ namespace Pistache
 
     bool match_double(double* val, StreamCursor& cursor)
     {
-        // @Todo: strtod does not support a length argument
+        // strtod does not support a length argument: parse a bounded copy so that
+        // it can not read past the buffered data
+        const std::string rest(cursor.offset(), cursor.remaining());
         char* end;
-        *val = strtod(cursor.offset(), &end);
-        if (end == cursor.offset())
+        *val = strtod(rest.c_str(), &end);
+        if (end == rest.c_str())
             return false;
 
-        cursor.advance(static_cast<ptrdiff_t>(end - cursor.offset()));
+        cursor.advance(static_cast<ptrdiff_t>(end - rest.c_str()));
         return true;
     }
 
